@@ -12,7 +12,7 @@ sys.path.insert(0, os.path.join(VERIF, '.deps'))
 sys.path.insert(0, VERIF)
 sys.path.insert(0, os.environ.get('TALLY_SRC', '/repo/src'))
 
-TARGETS = {'C03': ('spliced', 'check_generated'), 'C04': ('case_st', 'check'), 'C08': ('FUZZ_CASE', 'check')}
+TARGETS = {'C03': ('spliced', 'check_fuzz'), 'C04': ('case_st', 'check')}
 
 
 def main():
